@@ -174,7 +174,7 @@ func cmdCheck(args []string) int {
 	if !*keep {
 		defer os.RemoveAll(workDir)
 	}
-	quickMs, slowMs := 4000, 10000
+	quickMs, slowMs := 1500, 10000
 	if *tier == "thorough" {
 		quickMs, slowMs = 10000, 60000
 	}
@@ -216,7 +216,11 @@ func cmdCheck(args []string) int {
 		wg.Add(1)
 		go func(vc *VC) {
 			defer wg.Done()
+			ts := time.Now()
 			dischargeVC(vc, workDir, quickMs, slowMs, sem)
+			if *verbose {
+				fmt.Printf("  solve %.1fs (done at +%.1fs) %s\n", time.Since(ts).Seconds(), time.Since(t0).Seconds(), vc.Func)
+			}
 		}(vc)
 	}
 	wg.Wait()
